@@ -46,8 +46,10 @@
 (*   FixFirstRep  the batch path picks the resolver from reps[0] for all   *)
 (*                representations of the type (DESIGN 7 #13): a later      *)
 (*                representation carrying another key (or no key) is       *)
-(*                handed to the wrong resolver with an empty key; an       *)
-(*                invalid first representation fails the whole group.      *)
+(*                handed to the wrong resolver with a null key (nullable   *)
+(*                key field) or fails the WHOLE group (non-null key        *)
+(*                field); an invalid first representation fails the whole  *)
+(*                group.                                                   *)
 (*                Repaired: resolver chosen per representation, one call   *)
 (*                per (type, resolver), faults contained per call.         *)
 (*   FixShort     a batch resolver returning fewer entities than inputs    *)
@@ -104,14 +106,16 @@ Multi(t) == t \in {"M", "Rm"}          \* @entityResolver(multi: true)
 HasReq(t) == t \in {"R", "Rm"}         \* has a @requires field
 BatchRes == {"findManyMByIDs", "findManyMByAlts", "findManyRmByIDs"}
 
-\* entity resolvers in declaration order (= order of the @key directives), with their key fields
+\* entity resolvers in declaration order (= order of the @key directives), with their key fields;
+\* nn: the key fields are non-null types (unmarshalling a missing / null value FAILS for those,
+\* and yields a null key for nullable ones - only the batch path can get there, see PlanPinned)
 Res(t) ==
-  CASE t = "S"  -> << [n |-> "findSByID", f |-> {"id"}] >>
-    [] t = "K"  -> << [n |-> "findKByA", f |-> {"a"}], [n |-> "findKByBAndC", f |-> {"b", "c"}] >>
-    [] t = "N"  -> << [n |-> "findNByOid", f |-> {"o.id"}] >>
-    [] t = "M"  -> << [n |-> "findManyMByIDs", f |-> {"id"}], [n |-> "findManyMByAlts", f |-> {"alt"}] >>
-    [] t = "R"  -> << [n |-> "findRByID", f |-> {"id"}] >>
-    [] t = "Rm" -> << [n |-> "findManyRmByIDs", f |-> {"id"}] >>
+  CASE t = "S"  -> << [n |-> "findSByID", f |-> {"id"}, nn |-> TRUE] >>
+    [] t = "K"  -> << [n |-> "findKByA", f |-> {"a"}, nn |-> FALSE], [n |-> "findKByBAndC", f |-> {"b", "c"}, nn |-> FALSE] >>
+    [] t = "N"  -> << [n |-> "findNByOid", f |-> {"o.id"}, nn |-> TRUE] >>
+    [] t = "M"  -> << [n |-> "findManyMByIDs", f |-> {"id"}, nn |-> TRUE], [n |-> "findManyMByAlts", f |-> {"alt"}, nn |-> FALSE] >>
+    [] t = "R"  -> << [n |-> "findRByID", f |-> {"id"}, nn |-> TRUE] >>
+    [] t = "Rm" -> << [n |-> "findManyRmByIDs", f |-> {"id"}, nn |-> TRUE] >>
     [] OTHER    -> << >>
 
 \* Representation kinds: t = __typename ("" = missing / not a string), k = status of key fields
@@ -214,11 +218,16 @@ Build ==
 \* the key indices resolver r receives for the representations ix
 Keys(r, ix) == [j \in 1..Len(ix) |-> KeyIdx(r, K(ix[j]), ix[j])]
 
-\* pinned: the resolver of reps[0] for the whole group
+\* pinned: the resolver of reps[0] for the whole group; the keys of EVERY representation of the
+\* group are unmarshalled for that resolver: a representation that lacks a non-null key field
+\* makes resolveManyEntities return `Field ... undefined in schema.` (nobody is resolved), one
+\* that lacks a nullable key field is handed over with a null key
 PlanPinned(t) ==
   LET g == G(t)  fu == FirstUsable(K(g[1])) IN
   IF fu = 0 THEN [bad |-> 1, q |-> << >>]
-  ELSE [bad |-> 0, q |-> << [r |-> Res(t)[fu].n, ix |-> g, ky |-> Keys(Res(t)[fu], g)] >>]
+  ELSE LET r == Res(t)[fu]  ky == Keys(r, g) IN
+       IF r.nn /\ \E j \in 1..Len(g) : ky[j] = 0 THEN [bad |-> 1, q |-> << >>]
+       ELSE [bad |-> 0, q |-> << [r |-> r.n, ix |-> g, ky |-> ky] >>]
 
 \* repaired: resolver per representation, one call per resolver (declaration order)
 RECURSIVE PartsFrom(_, _)
